@@ -233,6 +233,8 @@ class Simple:
         )
 
     def forward_basis(self):
+        if approx_equal(self.start, 0):
+            return np.zeros((0, self.dim))  # nothing is reachable: the empty basis
         worklist = [self.start]
         basis = [self.start]
         while worklist:
